@@ -424,6 +424,67 @@ class Program(object):
         self._closure_bindings = None
         self._dyn_bindings = None
         self.unresolved = []
+        self.specialised = {}       # clone path -> (generic body path, caller path, bb)
+        self._specialise_closure_takers()
+
+    def _specialise_closure_takers(self):
+        """A crate-private higher-order helper - `fn with_locks<R>(&self, f: impl FnOnce(&mut A, &mut B) -> R) -> R` -
+        that is handed a *different closure at every call site* is analysed once per call site, the way rustc compiles it:
+        one copy of its body per closure type, each call site rewired to its copy, and in the copy the generic `F` is that
+        one closure.  Without this every caller would see, behind the helper, the union (may) or the intersection (must)
+        of what all the closures do.  Only helpers all of whose call sites pass a closure value are specialised; the
+        generic original then has no caller left and is dropped."""
+        cand = {}
+        all_sites = {}
+        for b in list(self.bodies.values()):
+            for bb, blk in enumerate(b.blocks):
+                t = blk["term"]
+                if t["k"] != "call" or blk.get("cleanup"):
+                    continue
+                c = t.get("callee") or {}
+                if c.get("indirect") or not (c.get("rk") == "item" and c.get("rlocal")):
+                    continue
+                tgt = self.bodies.get(c.get("resolved"))
+                if tgt is None or tgt.is_closure or tgt.reachable or tgt.path == b.path or tgt.raw.get("impl_trait"):
+                    continue
+                all_sites.setdefault(tgt.path, []).append((b, bb))
+                cds = []
+                for k, a in enumerate(t["args"]):
+                    pl = a.get("move") or a.get("copy")
+                    if pl is None or pl["p"] or k + 1 > tgt.argc:
+                        continue
+                    if self.types[self.strip_refs(tgt.locals[k + 1])].get("k") != "param":
+                        continue
+                    cd = self.closure_def_of_type(b.locals[pl["l"]])
+                    if cd:
+                        cds.append(cd)
+                if cds:
+                    cand.setdefault(tgt.path, []).append((b, bb, tuple(cds)))
+        for gpath in sorted(cand):
+            sites = cand[gpath]
+            g = self.bodies[gpath]
+            if len(sites) < 2 or len(sites) != len(all_sites.get(gpath, [])) or len(set(x[2] for x in sites)) < 2:
+                continue
+            if len(g.blocks) > 60 or any(b2.is_closure and b2.root == gpath for b2 in self.bodies.values()):
+                continue
+            # the helper must itself call its parameter (a mere forwarder gains nothing)
+            for n, (b, bb, cds) in enumerate(sorted(sites, key=lambda x: (x[0].path, x[1])), 1):
+                cpath = "%s#%d" % (gpath, n)
+                raw2 = dict(g.raw)
+                raw2["path"] = cpath
+                # `-> R` with R the closure's output: in this copy R is what that closure returns (a `Result`, say, that
+                # the caller tests with `?`)
+                if self.types[g.locals[0]].get("k") == "param" and len(cds) == 1 and cds[0] in self.bodies:
+                    rty = self.bodies[cds[0]].locals[0]
+                    raw2["locals"] = [rty if ty == g.locals[0] else ty for ty in g.locals]
+                self.bodies[cpath] = Body(self, raw2)
+                t = b.blocks[bb]["term"]
+                c2 = dict(t["callee"])
+                c2["resolved"] = cpath
+                c2.pop("_np", None)
+                t["callee"] = c2
+                self.specialised[cpath] = (gpath, b.path, bb)
+            del self.bodies[gpath]
 
     # ---- types ----
     def ty(self, ix):
